@@ -30,6 +30,7 @@ rc, out = sh(["cargo", "test", "--offline", "-p", crate] + sum([["-p", c] for c 
 lines = [l for l in out.splitlines() if l.startswith("test result")]
 res["crate_tests_with_patch"] = "ok" if rc == 0 else "FAILED"
 res["crate_test_summary"] = "%d test binaries, all ok" % len(lines) if rc == 0 else lines[-8:]
+os.makedirs(os.path.dirname(dst), exist_ok=True)
 shutil.copy(os.path.join(sd, "demo", demo), dst)
 rc, out = sh(["cargo", "test", "--offline", "-p", crate, "--test", tname])
 res["demo_with_patch"] = "FAILED" if rc != 0 else "passed"
